@@ -1,4 +1,4 @@
-CASES = (["unary:" + f for f in "positive negative abs sqrt exp log tanh sigmoid softplus sin cos tan relu lrelu prelu elu selu flatten transpose stop_gradient copy dropout_off square fanout".split()]
+CASES = (["unary:" + f for f in "positive negative abs sqrt exp log tanh sigmoid softplus sin cos tan relu lrelu prelu elu selu flatten transpose stop_gradient copy copy_cross dropout_off square fanout".split()]
   + ["const:" + f for f in "addr addl subr subl mulr mull divr divl powr powl pown".split()]
   + ["binary:%s:%s" % (f, v) for f in "add subtract multiply divide pow".split() for v in "11 1N N1 NN sl sr".split()]
   + ["matmul"] + ["axis:" + f for f in "sum mean max min logsumexp softmax log_softmax flip".split()]
